@@ -3,7 +3,6 @@
 package cmds
 
 import (
-	"os"
 	"encoding/json"
 	"fmt"
 	"reflect"
@@ -894,21 +893,6 @@ func TestVerif_C33(t *testing.T) {
 				}
 				r.Violate(mkey+": panics in "+tr.Site, msg+" via "+tr.Parent.String()+"."+tr.Step.M, rp)
 				return
-			}
-			switch os.Getenv("C33_MUTATE") {
-			case "swap":
-				if n := len(tr.After.Argv); len(tr.Step.A) >= 2 && n-len(tr.Before.Argv) >= 2 {
-					tr.After.Argv[n-1], tr.After.Argv[n-2] = tr.After.Argv[n-2], tr.After.Argv[n-1]
-				}
-			case "unit":
-				if len(tr.Step.A) == 1 && tr.Step.A[0].K == "d" && tr.Step.M == "Ex" {
-					n := len(tr.After.Argv)
-					tr.After.Argv[n-1] = tr.After.Argv[n-1] + "000"
-				}
-			case "prefix":
-				if len(tr.Before.Argv) >= 2 && tr.Step.M == "Value" {
-					tr.After.Argv[1] = "x"
-				}
 			}
 			kw, ok := c33checkTrans(r, tr, rp, notes)
 			if !ok || tr.After.Kind == 3 || tr.After.Kind == 4 {
